@@ -33,6 +33,10 @@ def load_config(name, features, report, repo=None):
     fx = allf[("chitchat", "rlib")]
     report.configs.append({"config": name, "factgen_s": round(secs, 1), "functions": len(fx.fns),
                            "adts": len(fx.adts), "crates": ["%s(%s)" % k for k in sorted(allf)]})
+    canon = {k: v for k, v in (("fields", fx.field_renames), ("variants", fx.variant_renames), ("paths", fx.path_renames)) if v}
+    if canon:
+        # renamed / moved private items were mapped back to the names the rules use (facts.py, paths.py); nothing is decided here
+        report.configs[-1]["canonicalised"] = canon
     lost = [b for f in allf.values() for b in getattr(f, "stolen_bodies", [])]
     if lost:
         raise RuntimeError("factgen could not export %d bodies (MIR stolen before export): %s" % (len(lost), lost[:5]))
